@@ -310,7 +310,23 @@ def _mentions(t, v):
     return walk(t)
 
 # ------------------------------------------------------------------------------------------------ dxlog series
-@obligation('C11.series.dxlog', fns=[(B, 'dxlog')])
+def replay_dxlog(model, wd):
+    from gm2v import native
+    import mpmath
+    mpmath.mp.dps = 40
+    exe = native.build_scalar_driver(wd, [B], ['src/gm2_ffunctions.cpp', 'src/gm2_dilog.cpp', 'src/gm2_numerics.cpp'], [('dxlog', 'thdm::dxlog(a[0],a[1])', 2)])
+    pts = [(b * (1 + d), b) for b in (0.3, 1.0, 4.0, 37.0, 1200.0) for d in (9e-5, -9e-5, 3e-5, 1e-6, 2e-4, -2e-4)]
+    vals = native.run_scalar_driver(exe, [('dxlog', list(p)) for p in pts])
+    worst = None
+    for (a, b), v in zip(pts, vals):
+        A, Bm = mpmath.mpf(a), mpmath.mpf(b)
+        want = (A * A * mpmath.log(A) - Bm * Bm * mpmath.log(Bm)) / (A - Bm)
+        err = abs((mpmath.mpf(v) - want) / want)
+        if worst is None or err > worst[0]:
+            worst = (float(err), a, b, v, float(want))
+    return worst[0] > 1e-6, 'real dxlog(%r, %r) = %r, definition %r, relative error %.3g (sweep of %d near-equal pairs)' % (worst[1], worst[2], worst[3], worst[4], worst[0], len(pts))
+
+@obligation('C11.series.dxlog', fns=[(B, 'dxlog')], replay=replay_dxlog)
 def _(ctx):
     """ensures: for a close to b, dxlog returns the Taylor polynomial in (a-b) to second order of (a^2 ln a - b^2 ln b)/(a-b):
     b(1 + 2 ln b) + (a-b)(3/2 + ln b) + (a-b)^2/(3b); on the other path the defining quotient"""
